@@ -54,6 +54,7 @@ def run_real(code, env):
     ctx = ExecutionContext()
     ctx.amount, ctx.balance, ctx.now, ctx.level = env['amount'], env['balance'], env['now'], env['level']
     ctx.sender, ctx.source, ctx.address, ctx.chain_id = env['sender'], env['source'], env['self'], env['chain_id']
+    ctx.total_voting_power, ctx.min_block_time = env.get('total_voting_power', 0), env.get('min_block_time', 1)
     stack = MichelsonStack()
     try:
         Micheline.match(code).execute(stack, [], ctx)
